@@ -6,6 +6,8 @@ mod capture;
 mod e1;
 mod e2;
 mod e3;
+mod e4;
+mod e4b;
 mod gen;
 mod gen3;
 mod implrun;
@@ -28,6 +30,7 @@ fn engine_of(prop: &str) -> &'static str {
     match prop {
         "C06" | "C07" | "C08" | "C09" | "C13" => "e1",
         "C01" | "C02" | "C03" | "C04" | "C05" | "C10" | "C11" | "C12" | "C14" | "C15" | "C16" | "C17" => "e2",
+        "C18" | "C19" | "C20" | "C21" => "e4",
         _ => "none",
     }
 }
@@ -66,6 +69,12 @@ fn real_main(args: Vec<String>) -> i32 {
         match engine_of(&prop) {
             "e1" => e1::worker(&tier),
             "e2" => e2::worker(&prop, &tier),
+            "e4" => match prop.as_str() {
+                "C18" => e4::worker_c18(&tier),
+                "C19" => e4::worker_c19(&tier),
+                "C20" => e4::worker_c20(&tier),
+                _ => e4b::worker_c21(&tier),
+            },
             _ => {}
         }
         return 0;
@@ -73,6 +82,7 @@ fn real_main(args: Vec<String>) -> i32 {
     match engine_of(&prop) {
         "e1" => run_e1(&prop, &tier),
         "e2" => run_e2(&prop, &tier),
+        "e4" => run_e4(&prop, &tier),
         _ => {
             eprintln!("unknown property {}", prop);
             2
@@ -94,6 +104,12 @@ fn replay(path: &str) -> i32 {
     let ok = match w["engine"].as_str() {
         Some("e1") => e1::replay(w),
         Some("e2") => e2::replay(w),
+        Some("e4") => match w["kind"].as_str() {
+            Some("c18") => e4::replay_c18(w),
+            Some("c20") => e4::replay_c20(w),
+            Some("c21") => e4b::replay_c21(w),
+            _ => e4::replay_c19(w),
+        },
         Some("e3") => {
             println!("list case: {}", w["text"]);
             println!("(re-run ./check C15: the direct list checks are deterministic and take under a second)");
@@ -169,5 +185,65 @@ fn run_e2(prop: &str, tier: &str) -> i32 {
             "programs whose reference search exceeds the step budget, needs an occurs check or reaches behaviour the statements are silent on are counted under skipped.* and not judged".into(),
         ],
     };
+    report::finish(verdict, &out)
+}
+
+fn run_e4(prop: &str, tier: &str) -> i32 {
+    let args = vec![prop.to_string(), "--tier".into(), tier.to_string()];
+    let cap = if tier == "thorough" { 3 * 3600 } else { 900 };
+    let out = supervise::run_sharded(&args, nshards(), Duration::from_secs(10), Duration::from_secs(cap), &[]);
+    let g = |k: &str| *out.stats.get(k).unwrap_or(&0);
+    let (level, coverage, assumptions) = match prop {
+        "C18" => (
+            "exploration",
+            json!({
+                "evaluations": g("calls"),
+                "distinct_nontrivial": out.distinct.get("accepted_inputs").copied().unwrap_or(0),
+                "rule": "inputs = every string of length <= 4 (quick) / 5 (thorough) over the 26-symbol syntax alphabet, plus every single edit (delete / insert / replace by each of 30 symbols, every position) of a 24-text valid corpus (thorough: also double edits with 12 structural symbols at distance <= 2); each input goes to all 10 parser entry points under catch_unwind inside a watchdogged worker. Non-trivial = distinct inputs accepted (a value returned) by at least one parser",
+                "samples": report::samples(&out, 5),
+                "exhaustive": !out.capped,
+                "inputs": g("inputs"),
+                "panics_observed": g("panics"),
+            }),
+            vec!["panics are identified by panic site (file:line); aborts, stack overflows and hangs are attributed to the single input being parsed".to_string()],
+        ),
+        "C19" => (
+            "model_checking",
+            json!({
+                "states": g("c19.terms") + g("c19.goals") + g("c19.rules"),
+                "transitions": 3 * (g("c19.terms") + g("c19.goals") + g("c19.rules")) + g("c19.infix_goals"),
+                "traces_validated_against_impl": g("c19.terms") + g("c19.goals") + g("c19.rules"),
+                "samples": report::samples(&out, 5),
+                "exhaustive": !out.capped,
+                "rule": "state = one derivation of the canonical grammar (term depth <= 2 quick / 3 thorough; leaf goals over depth-1 terms; rules with and/or bodies of <= 3 goals); transitions = parse(canonical text), Display(parsed), parse(Display) on the real parsers, each compared with the value built through the constructors / the canonical printer",
+            }),
+            vec!["canonical printer = harness term/goal text(); zero-arity complex terms print as `f()` as the repository's own tests fix it".to_string(), "parenthesised goal groups and floats without a fractional part are outside C19".to_string()],
+        ),
+        "C20" => (
+            "model_checking",
+            json!({
+                "states": g("c20.texts"),
+                "transitions": g("c20.parses"),
+                "traces_validated_against_impl": g("c20.texts"),
+                "samples": report::samples(&out, 5),
+                "exhaustive": !out.capped,
+                "rule": "state = one term text (canonical grammar plus signed numbers, punctuation atoms, odd numerals); transitions = parsing it in 9 contexts (alone, first/last complex argument, built-in argument, first/last list element, left/right infix operand, query argument) on the real parsers; all nine results must be the same term (ids ignored) or all errors",
+            }),
+            vec!["the surrounding context text is fixed (`ctx(_, zz)`, `[_, zz]`, `_ = zz`, `print(_, zz)`)".to_string()],
+        ),
+        _ => (
+            "model_checking",
+            json!({
+                "states": g("c21.programs"),
+                "transitions": g("c21.files_loaded"),
+                "traces_validated_against_impl": g("c21.files_loaded"),
+                "samples": report::samples(&out, 3),
+                "exhaustive": !out.capped,
+                "rule": "state = a program of 1-3 rules of the rule grammar (plus float / infix / quoted extras and the corpus); transition = one layout (subset of legal break points after - , ; =, indentation, blank lines, one comment of each marker outside brackets) written to a scratch file and loaded by the real load_kb_from_file; the result must equal the knowledge base built by parse_rule on each rule",
+            }),
+            vec!["rules the rule parser itself rejects are skipped (C19 owns them)".to_string(), "break points inside quoted atoms and comments inside parentheses/brackets are not generated".to_string()],
+        ),
+    };
+    let verdict = report::Verdict { property: prop.to_string(), level: level.into(), coverage, assumptions };
     report::finish(verdict, &out)
 }
